@@ -4,7 +4,7 @@ from jaqalpaq.error import nesting_guard
 from jaqalpaq.core.algorithm.visitor import Visitor
 from jaqalpaq.core.circuit import Circuit
 from jaqalpaq.core.block import BlockStatement, LoopStatement
-from jaqalpaq.core.gatedef import GateDefinition
+from jaqalpaq.core.gatedef import BusyGateDefinition
 from jaqalpaq.core.macro import Macro
 
 
@@ -51,7 +51,8 @@ def _choose_bounding_gate(user_def, default_name, circuit):
     except KeyError:
         pass
 
-    return GateDefinition(name)
+    # A bounding gate acts on every qubit
+    return BusyGateDefinition(name)
 
 
 class SubcircuitExpander(Visitor):
